@@ -271,8 +271,9 @@ func c18objects(seed int64, keys *gen.KeyRing, n int) []*c18object {
 				ck = d
 			}
 			msg := r.Bytes(20)
-			s0, _ := ck.Signer()
-			sig, _ := s0.Sign(gen.Entropy, msg)
+			// (the signature is made with the ring's signer: the shared Key object stays untouched until
+			// the monitored operations run)
+			sig, _ := k.KeySigner.Sign(gen.Entropy, msg)
 			o := &c18object{name: fmt.Sprintf("key-%d", i), kind: "key", alg: k.Name, dec: decoded}
 			o.state = func() []any { return []any{ck, msg, sig} }
 			o.ops = []c18op{
